@@ -31,8 +31,11 @@ def _do(hists):
     return out
 
 
-def bfs(run, step, max_depth, workers=None, chunk=16, label="", full_depth=0):
-    """Returns (states, transitions, fixpoint_reached, max_depth_seen)."""
+def bfs(run, step, max_depth, workers=None, chunk=16, label="", full_depth=0, budget=600000):
+    """Returns (states, transitions, fixpoint_reached, max_depth_seen).
+
+    budget bounds the number of transitions: a change to the code under test that adds ever-growing bookkeeping to the objects the
+    canonical state projects makes every history a new state; the search then stops at the last complete level and says so."""
     global _STEP
     _STEP = step
     workers = workers or workers_default()
@@ -43,12 +46,19 @@ def bfs(run, step, max_depth, workers=None, chunk=16, label="", full_depth=0):
     frontier = [([], root["enabled"])]
     states, transitions, depth = 1, 0, 0
     longest = []
+    budget_hit = False
     ctx = mp.get_context("fork")
     pool = ctx.Pool(workers) if workers > 1 else None
     try:
         while frontier and depth < max_depth:
             depth += 1
             todo = [h + [ev] for h, en in frontier for ev in en]
+            if transitions + len(todo) > budget:
+                depth -= 1
+                run.cap("%sBFS stopped after depth %d: the next level has %d transitions, over the budget of %d (%d done)" % (label, depth, len(todo), budget, transitions))
+                frontier = []
+                budget_hit = True
+                break
             groups = [todo[i:i + chunk] for i in range(0, len(todo), chunk)]
             results = pool.imap(_do, groups) if pool else map(_do, groups)
             nxt = []
@@ -74,8 +84,8 @@ def bfs(run, step, max_depth, workers=None, chunk=16, label="", full_depth=0):
         if pool:
             pool.terminate()
             pool.join()
-    fix = not frontier
-    if not fix:
+    fix = not frontier and not budget_hit
+    if frontier:
         run.cap("%sBFS stopped at depth cap %d with %d unexpanded states" % (label, max_depth, len(frontier)))
     if longest:
         run.sample({"history": longest})
